@@ -212,7 +212,11 @@ def pair_programs(asm, rep, tier, rnd):
                     pre = 'K = {}\n'.format(v)
                 val = v
         tail_nops = rnd.randrange(0, 4)
-        src = pre + body + pair.format(e=expr) + 'addi x0 x0 0\n' * tail_nops + 'L:\n'
+        ptxt = pair.format(e=expr)
+        if rnd.random() < 0.25:
+            # the modifiers are matched without regard to case
+            ptxt = ptxt.replace('%hi', rnd.choice(['%HI', '%Hi', '%hI'])).replace('%lo', rnd.choice(['%LO', '%Lo', '%lO']))
+        src = pre + body + ptxt + 'addi x0 x0 0\n' * tail_nops + 'L:\n'
         label_off = 4 * (nop_before + 2 + tail_nops)
         if how == 2:
             val = label_off
